@@ -13,3 +13,22 @@ TEXT["C12"] = dict(
          "see level text once built.",
     technique="Coq proof over a cBPF interpreter on programs regenerated from source + differential run against bpf.VM",
 )
+
+TEXT["C03"] = dict(
+    text="Coq theorems: for every first/last pair and EVERY sequence of accepted replies, the engines' data path (validate, merge, clip, ToHops) "
+         "returns a non-empty list with consecutive TTLs that ends at the lowest destination-answered TTL (else the last TTL), empty entries for unanswered TTLs, "
+         "destination only last; lifted to the timed models of both engines (any network script) and to every reachable state of every interleaving of the "
+         "parallel engine's threads. Correspondence: the real engines under a virtual clock vs the timed model (hops, accepted sequence, send log, elapsed) and the "
+         "shape predicate evaluated on the implementation's own output.",
+    note="Hand-written model tied by correspondence (tie kind B). Trusted: Coq kernel, harness scripted driver + synctest, extraction (cross-checked with vm_compute). "
+         "The real protocol drivers are covered by C01/C02, not here.",
+    technique="Coq proof (list induction over accepted replies, invariant over a 2-thread transition system) + differential run of the real engines under synctest",
+)
+TEXT["C07"] = dict(
+    text="Coq theorems: the merged table after ANY accepted sequence has, per TTL, the earliest destination reply else the earliest reply (so it depends on the "
+         "accepted replies only through those two rules); invariant over all interleavings of sender/receiver/deadline steps of a transition system of the parallel "
+         "engine: shared table = merge of accepted so far, sent TTLs = first, first+1, ... Correspondence as for C03, with the merge rule evaluated on the implementation's output; "
+         "enumerated exhaustively for <= 3 TTLs x <= 4 replies x all arrival orders, random beyond.",
+    note="Atomicity of writeProbe under resultsMu is assumed by the transition system (C14 supports it). Go scheduler not modelled.",
+    technique="Coq proof (invariant over all interleavings of a transition system + fold characterisation) + differential run of the real parallel engine under synctest",
+)
